@@ -52,7 +52,7 @@ ENGINE_STREAMS = {
     "C05": [("C01", 30, 1500, 40), ("faults", 30, 1500, 40), ("reject", 30, 1000, 40), ("wide", 20, 400, 30)],
     "C06": [("C01", 40, 1500, 40), ("churn", 40, 1000, 60), ("wide", 20, 400, 30)],
     "C07": [("faults", 60, 2000, 40), ("binds", 30, 1000, 40), ("reject", 30, 1000, 40)],
-    "C08": [("binds", 70, 3000, 40), ("inner", 30, 1000, 40)],
+    "C08": [("binds", 60, 3000, 40), ("inner", 30, 1000, 40), ("bind2", 60, 2000, 40)],
     "C10": [("C01", 30, 1500, 40), ("faults", 30, 1500, 40), ("inner", 40, 1500, 40)],
     "C11": [("cutoffs", 100, 3000, 40)],
     "C12": [("midset", 60, 1500, 40), ("unobs", 40, 1500, 40)],
@@ -72,6 +72,8 @@ def run_engine(ctx, K):
         extra = ["-include", "C05"] if (ctx.pid == "C07" and profile == "reject") else []
         rep = K.run_tool(ctx, b, ["-prop", profile, "-claim", ctx.pid] + extra + ["-n", str(n), "-ops", str(ops), "-coq", cases,
                                   "-coqmax", str(tier_n(ctx, nq, 400)), "-seed", str(ctx.seed)], "engine-" + profile)
+        if profile == "bind2":
+            continue  # Bind2/3/4 are library sugar over Map2 + Bind: exercised on the implementation only, not in the Coq model
         if rep:
             ctx.coq_cases += rep.get("coq_cases", 0)
             K.run_cases(ctx, cases, "Engine.v~go-incr engine (%s stream)" % profile)
